@@ -527,6 +527,26 @@ class SemanticErrorChecker:
             return False
         return True
 
+    def check_attribute_access_in_expression(
+        self, variable_list: List[str], context: ParserRuleContext, task: Task
+    ) -> bool:
+        """Checks an attribute access that is used inside an expression or as loop limit.
+
+        The scheduler resolves such an access attribute by attribute in the value the execution
+        engine returns, so array elements can not be used there.
+
+        Returns:
+            True if the attribute access is valid and contains no array index.
+        """
+        if not self.check_attribute_access(variable_list, context, task):
+            return False
+        for element in variable_list:
+            if element.startswith("[") and element.endswith("]"):
+                error_msg = "Array elements can not be used in expressions or as loop limit"
+                self.error_handler.print_error(error_msg, context=context)
+                return False
+        return True
+
     def check_call_output_parameters(self, called_entity: Union[Service, TaskCall]) -> bool:
         """Checks if the output parameters of a Service or Task Call are valid.
 
@@ -764,7 +784,7 @@ class SemanticErrorChecker:
         """
         limit = counting_loop.limit
         if isinstance(limit, list):
-            if not self.check_attribute_access(limit, counting_loop.context, task):
+            if not self.check_attribute_access_in_expression(limit, counting_loop.context, task):
                 return False
             if not self.expression_is_number(limit, task):
                 error_msg = "The limit of a counting loop has to be a number"
@@ -825,7 +845,7 @@ class SemanticErrorChecker:
         if isinstance(expression, (str, int, float, bool)):
             return True
         if isinstance(expression, list):
-            if not self.check_attribute_access(expression, context, task):
+            if not self.check_attribute_access_in_expression(expression, context, task):
                 return False
 
             # only numbers and booleans are allowed, so check the variable type
@@ -857,7 +877,9 @@ class SemanticErrorChecker:
 
         # operands given as attribute access have to be resolvable before their type is looked up
         for side in (left, right):
-            if isinstance(side, list) and not self.check_attribute_access(side, context, task):
+            if isinstance(side, list) and not self.check_attribute_access_in_expression(
+                side, context, task
+            ):
                 return False
 
         if expression["binOp"] in ["<", ">", "<=", ">="]:
